@@ -2,7 +2,7 @@
 non-triviality rule, input classification, known-finding signatures."""
 import hashlib, json, os, re, subprocess, time
 
-HARNESS_TIMEOUT = {'quick': 900, 'thorough': 7200}
+HARNESS_TIMEOUT = {'quick': 420, 'thorough': 7200}
 
 # files whose failure means the executable model itself does not build
 MODEL_FILES = ['theories/Base.v', 'theories/Lines.v', 'theories/Lifecycle.v', 'theories/Regex.v', 'theories/Claims.v',
@@ -82,6 +82,22 @@ def _claims_texts_utf8(tok):
             if len(f) == 5:
                 ok = ok and _utf8_ok(f[0]) and _utf8_ok(f[2]) and _utf8_ok(f[4])
     return ok
+
+
+def _c08_oracle(inp, obs, extra):
+    if inp.startswith('RTJ '):
+        return _c12_oracle(inp, obs, extra)
+    if inp.startswith('XGATE '):
+        o = dict(t.split('=', 1) for t in obs.split(' ') if '=' in t)
+        if 'panic' in obs:
+            return 'a gate panicked on an extension profile'
+        v = o.get('v')
+        if o.get('de') != 'ok':
+            return None
+        for g in ('dve', 'dvc', 'vec', 'dvj', 'set'):
+            if g in o and o[g] != v:
+                return 'gate %s of an extension profile says %s while the profile\'s Validate() says %s' % (g, o[g], v)
+    return None
 
 
 def _c17_oracle(inp, obs, extra):
@@ -288,7 +304,7 @@ PROPS = {
         rule='tokens assembled by an independent CBOR writer: per claim key every value class (absent, null, undefined, booleans, simple values, floats of all widths, integers at every width boundary incl. 2^31, 2^32, 2^63, 2^64-1 and negative counterparts, non-preferred heads, byte strings of 14 lengths, texts incl. invalid UTF-8, arrays / maps / nested, tagged forms, indefinite lengths) with the rest valid; the other profile\'s keys mixed in; permuted key order; unknown extra keys (int, text, huge uint, byte-string / array / bool / float keys); duplicates; trailing and truncated bytes; pairs of deviations; non-map top-level items; non-trivial = rejected or some getter failing',
     ),
     'C08': dict(
-        cone=EV_CONE + ['theories/JsonProofs.v', 'theories/JsonRoundtrip.v', 'theories/JsonCross.v'], level='proof', kernel_maxlen=6000, oracle=lambda i, o, x: _c12_oracle(i, o, x) if i.startswith('RTJ ') else None,
+        cone=EV_CONE + ['theories/JsonProofs.v', 'theories/JsonRoundtrip.v', 'theories/JsonCross.v'], level='proof', kernel_maxlen=6000, oracle=_c08_oracle,
         nontrivial=lambda i, o: 'err' in o or ' e' in o, classify=lambda i, o: i.split(' ')[0] + ' ' + o.split(' ')[0][:3],
         rule='every C01 claims-set (valid and each kind of invalid) through ValidateAndEncodeClaimsToCBOR vs EncodeClaimsToCBOR, Evidence.SetClaims (result and whether anything was attached), ValidateAndSign (result, no token on failure, payload = plain encoding); every C04 token through DecodeAndValidateClaimsFromCBOR vs DecodeClaimsFromCBOR and DecodeAndValidateEvidenceFromCOSE vs DecodeEvidenceFromCOSE; non-trivial = some gate refused',
     ),
